@@ -161,9 +161,11 @@ def integrate_spin(expr: Expr, target_idx: str, target_spin: str) -> Expr:
                         idx_map[spin].add(idx)
                 if not valid:
                     continue
+                # an index that occurs more than once on the object (trace)
+                # can not have alpha and beta spin simultaneously
+                # -> the block does not contribute
                 if idx_map["a"] & idx_map["b"]:
-                    raise ValueError("Found invalid allowed spin block "
-                                     f"{block} for {obj}.")
+                    continue
                 obj_spin_idx_maps.append(idx_map)
             if not obj_spin_idx_maps:
                 term_vanishes = True
